@@ -359,7 +359,9 @@ class Model:
         # effects
         for cn, join, create, errs in decisions:
             if join:
-                if create and cn not in self.chans:
+                if create:
+                    # (a name repeated in one JOIN list is decided twice while the channel does not exist yet:
+                    # this server creates it again; unspecified, mirrored here so that the model stays in step)
                     c = MChan(cn)
                     c.members[u.nick] = {"q", "o"}
                     self.chans[cn] = c
